@@ -125,12 +125,12 @@ def layout_cases(rng, quick):
         dt = DTYPES[vi % 5]        # pairwise different values: not bool
         elems = [_elem(dt, (s,), 10 * (j + 1)) for j, s in enumerate(sizes)]
         for order in itertools.permutations(range(n)):
-            for gaps, trail in gap_patterns(n, "all" if not quick else "named" if n <= 2 else "rotate", i):
+            for gaps, trail in gap_patterns(n, "all" if not quick else "named" if n == 1 else "rotate", i)[: 1 if quick and n == 4 else None]:
                 packed = not any(gaps) and not trail
                 side = "node" if (i + vi) % 3 else "edge"
                 plan = {"order": list(order), "gaps": gaps, "trail": trail}
                 # the sections tile `data` (no unused cell): both zarr formats
-                for fmt in ((2, 3) if packed and (n == 3 or not quick) else (None,)):
+                for fmt in ((2, 3) if packed and ((n == 3 and 0 not in sizes) or not quick) else (None,)):
                     add(f"1d:n{n}:{'tiling' if packed else 'gaps'}:{'row-order' if list(order) == sorted(order) else 'permuted'}",
                         side, elems, plan, fmt=fmt)
     # ---- N-D elements (one rank per property): equal sizes with different shapes, different sizes, zero extents
